@@ -135,6 +135,9 @@ class World:
         if out is None:
             out = []
         mutable = isinstance(x, (list, dict, set, KeyedList, KeyedSet)) or type(x) in self.by_type
+        if type(x) in self.by_type and self.scn["classes"][self.by_type[type(x)]]["frozen"] and path:
+            # a nested frozen instance cannot be changed through the API: an immutable leaf (DESIGN.md C02)
+            return out
         if not mutable:
             if isinstance(x, tuple):
                 for i, y in enumerate(x):
